@@ -4,6 +4,7 @@ import Preflate.Props.C05
 #print axioms Preflate.tree_index_safe
 #print axioms Preflate.policyUpdate_totalShift
 #print axioms Preflate.chain_positions_in_u16_partial
+#print axioms Preflate.chain_positions_in_u16_estimated
 #print axioms Preflate.estimator_front_no_panic
 #print axioms Preflate.estimator_front_total
 #print axioms Preflate.encStream_no_panic
